@@ -337,6 +337,15 @@ func registerIOModels() {
 	// uninterpreted valkind(v): 1 message, 2 list, 3 map.
 	fdID := func(v Val) string { return v.(VIface).Pay }
 	valKind := func(v Val) string { return app("valkind", flatten(v)...) }
+	for _, n := range []string{"ByName", "ByJSONName", "ByTextName", "ByNumber"} {
+		libModels["(protoreflect.FieldDescriptors)."+n] = &libModel{desc: "a field descriptor found by " + n + " belongs to the collection it was looked up in (fdOwner(fd) is that collection); no heap effect",
+			apply: func(c *FnCtx, st *State, in ssa.Instruction, cc *ssa.CallCommon, args []Val) Val {
+				c.eng.needProto = true
+				r := c.freshVal(st, cc.Signature().Results().At(0).Type(), "pb.fd").(VIface)
+				c.assume(st, implies(not(eq(r.Typ, "0")), eq(app("fdOwner", r.Pay), fdID(args[0]))))
+				return r
+			}}
+	}
 	libModels["(protoreflect.FieldDescriptor).IsList"] = &libModel{desc: "IsList() is the uninterpreted fdIsList(fd)",
 		apply: func(c *FnCtx, st *State, in ssa.Instruction, cc *ssa.CallCommon, args []Val) Val {
 			c.eng.needProto = true
